@@ -157,7 +157,7 @@ deriving Repr, DecidableEq
 inductive CreateOutcome | ok | ice | ncnr | generic | createErr
 deriving Repr, DecidableEq
 
-inductive Site | finPatch | create | claimDelete | nodePatchLock | nodePatch | metaPatch | statusPatch
+inductive Site | finPatch | create | claimDelete | nodePatchLock | nodePatch | metaPatch | statusPatch | poolGet
 deriving Repr, DecidableEq
 
 inductive Outcome | ok | conflict | notFound | other | ice | ncnr | generic | createErr
@@ -180,6 +180,13 @@ structure Call where
   out : Outcome
 deriving Repr, DecidableEq
 
+/-- `kubeClient.Get` of the NodePool that the NodeClaim's `karpenter.sh/nodepool` label names
+    (`updateNodePoolRegistrationHealth` in registration.go and liveness.go).  The NodePool is not part of the modelled
+    world: the answer of the read is a parameter.  `unlabelled`: the NodeClaim carries no such label, no Get is made;
+    `err .notFound`: the NodePool is gone (deleted while the NodeClaim is still around) or the read said so. -/
+inductive PoolGet | unlabelled | ok | err (e : Err)
+deriving Repr, DecidableEq
+
 /-- an injected error class per call site, applied to every call of that site within the reconcile -/
 structure Faults where
   finPatch : Option Err := none       -- NodeClaim Patch with optimistic lock (finalizer)
@@ -189,6 +196,7 @@ structure Faults where
   nodePatch : Option Err := none      -- Node Patch (initialized label)
   metaPatch : Option Err := none      -- NodeClaim Patch (metadata)
   statusPatch : Option Err := none    -- NodeClaim Status().Patch
+  poolGet : PoolGet := .unlabelled    -- NodePool Get (a read; its answer decides whether a timeout may delete)
 deriving Repr, DecidableEq
 
 inductive Result | ok | requeue | after (secs : Nat) | err
@@ -236,6 +244,38 @@ def Ctx.setR (c : Ctx) (st : Tri) (r : Reason) : Ctx :=
   { c with mem := { c.mem with conds := { c.mem.conds with r := c.mem.conds.r.set st r c.w.now } } }
 def Ctx.setI (c : Ctx) (st : Tri) (r : Reason) : Ctx :=
   { c with mem := { c.mem with conds := { c.mem.conds with i := c.mem.conds.i.set st r c.w.now } } }
+
+/-! ### `updateNodePoolRegistrationHealth` as its callers see it -/
+
+/-- what the caller does with the error of `updateNodePoolRegistrationHealth`:
+    `client.IgnoreNotFound(err) != nil` → `IsConflict` → `Requeue: true`, anything else → return the error -/
+inductive PoolVerdict | proceed | requeue | fail
+deriving Repr, DecidableEq
+
+def PoolGet.verdict : PoolGet → PoolVerdict
+  | .unlabelled => .proceed
+  | .ok => .proceed
+  | .err .notFound => .proceed   -- the NodePool no longer exists: nothing to book, carry on
+  | .err .conflict => .requeue
+  | .err .other => .fail
+
+def PoolGet.toOutcome : PoolGet → Outcome
+  | .unlabelled => .ok
+  | .ok => .ok
+  | .err e => e.toOutcome
+
+/-- the NodePool read, logged when it is made (a labelled NodeClaim).  The health bookkeeping behind it (tracker,
+    NodePool status patch) is C20's subject. -/
+def poolRead (f : Faults) (c : Ctx) : Ctx :=
+  if f.poolGet = .unlabelled then c else c.call .poolGet f.poolGet.toOutcome
+
+/-- the caller's reaction folded into the reconcile's state: `none` = carry on -/
+def poolHealth (f : Faults) (c : Ctx) : Ctx × PoolVerdict :=
+  let c := poolRead f c
+  match f.poolGet.verdict with
+  | .proceed => (c, .proceed)
+  | .requeue => ({ c with results := c.results ++ [0] }, .requeue)
+  | .fail => ({ c with errs := true }, .fail)
 
 /-! ### `kubeClient.Delete(ctx, nodeClaim)` -/
 
@@ -288,16 +328,18 @@ def registerNode (sp : Spec) (mem : Claim) (n : Node) : Node :=
   { n with finalizer := true, ownerRef := true, userLabels := true, provLabels := n.provLabels || mem.provLabels,
            taints := ts.filter (fun t => !t.matches unregistered), regLabel := true }
 
-def regSuccess (c : Ctx) : Ctx :=
+def regSuccess (f : Faults) (c : Ctx) : Ctx :=
   let c := c.setR .true_ .registered
-  { c with mem := { c.mem with nodeName := true } }
+  let c := { c with mem := { c.mem with nodeName := true } }
+  -- `updateNodePoolRegistrationHealth`: Registered stays true in memory whatever the NodePool read says
+  (poolHealth f c).1
 
 /-- exactly one node carries the provider id: sync it, patch it (optimistic lock), then `Registered = True` -/
 def registerOne (sp : Spec) (f : Faults) (c : Ctx) (n : Node) : Ctx :=
   let n' := registerNode sp c.mem n
-  if n' = n then regSuccess c
+  if n' = n then regSuccess f c
   else match f.nodePatchLock with
-    | none => regSuccess ({ c with w := { c.w with nodes := [n'] } }.call .nodePatchLock .ok)
+    | none => regSuccess f ({ c with w := { c.w with nodes := [n'] } }.call .nodePatchLock .ok)
     | some .conflict => { c.call .nodePatchLock .conflict with results := c.results ++ [0] }
     | some .notFound => { c.call .nodePatchLock .notFound with errs := true, errsNF := true }
     | some .other => { c.call .nodePatchLock .other with errs := true }
@@ -360,18 +402,25 @@ def initialization (sp : Spec) (f : Faults) (c : Ctx) : Ctx :=
 
 /-! ### `Liveness.Reconcile` -/
 
+/-- a timeout has passed: `updateNodePoolRegistrationHealth`, then — unless that failed with something other than
+    NotFound — `deleteNodeClaimForTimeout` -/
+def timeoutDelete (f : Faults) (c : Ctx) : Ctx :=
+  let p := poolHealth f c
+  if p.2 ≠ .proceed then p.1
+  else
+    let c := p.1
+    let o := claimDeleteOutcome f c.w
+    let c := deleteClaim f c
+    if o = .ok ∨ o = .notFound then c else { c with errs := true }
+
 /-- the launch-timeout half; `false` = `Liveness.Reconcile` returned -/
 def livenessLaunch (f : Faults) (c : Ctx) : Ctx × Bool :=
   if c.mem.conds.l.status = .true_ then (c, true)
   else if c.w.now - c.mem.conds.l.ltt < launchTimeoutSecs then
     ({ c with results := c.results ++ [launchTimeoutSecs - (c.w.now - c.mem.conds.l.ltt)] }, false)
   else
-    let o := claimDeleteOutcome f c.w
-    let c := deleteClaim f c
     -- (repaired) the launch-timeout branch returns after its Delete instead of falling through to the registration timeout
-    if o = .ok then (c, false)
-    else if o = .notFound then (c, false)
-    else ({ c with errs := true }, false)
+    (timeoutDelete f c, false)
 
 def liveness (f : Faults) (c : Ctx) : Ctx :=
   if c.mem.conds.r.status = .true_ then c
@@ -381,10 +430,7 @@ def liveness (f : Faults) (c : Ctx) : Ctx :=
     if !p.2 then c
     else if c.w.now - c.mem.conds.r.ltt < registrationTimeoutSecs then
       { c with results := c.results ++ [registrationTimeoutSecs - (c.w.now - c.mem.conds.r.ltt)] }
-    else
-      let o := claimDeleteOutcome f c.w
-      let c := deleteClaim f c
-      if o = .ok ∨ o = .notFound then c else { c with errs := true }
+    else timeoutDelete f c
 
 /-! ### The two patches at the end of `Controller.Reconcile` -/
 
